@@ -100,7 +100,25 @@ func newReadWriteSegment(basePath string, baseOffset int64, segmentSize uint32, 
 		ms.currentFileOffset, ms.c.baseOffset, commitOffset); err != nil {
 		return nil, errors.Wrapf(err, "failed to rebuild index for segment file %s", ms.c.txnPath)
 	}
+	// The recovery may have stopped in front of a torn or damaged uncommitted record. Clear what lies behind
+	// the recovered tail, as Truncate does: a valid record left there would otherwise be taken, on a later
+	// recovery, for an entry that follows the ones appended from now on.
+	if tail := ms.txnMappedFile[ms.currentFileOffset:]; hasData(tail) {
+		clear(tail)
+		if err = ms.txnMappedFile.Flush(); err != nil {
+			return nil, errors.Wrapf(err, "failed to flush segment file %s", ms.c.txnPath)
+		}
+	}
 	return ms, nil
+}
+
+func hasData(b []byte) bool {
+	for _, c := range b {
+		if c != 0 {
+			return true
+		}
+	}
+	return false
 }
 
 func (ms *readWriteSegment) LastCrc() uint32 {
